@@ -107,6 +107,28 @@ def table():
     t.append(("arg:array_to_extern_pointer_without_addr", PRE + ext + fn("", ["var a: [3]i32 = [1, 2, 3];", "xfill(a);"]), {512, 513}))
     t.append(("arg:constant_array_to_endless_pointer", PRE + endless + fn("", ["efill(&KA);"]), {512, 513, 530}))
     t.append(("arg:struct_view_member_to_endless_pointer", PRE + endless + fn("s: S", ["efill(&s.arr);"]), {512, 513, 530}))
+    # every row so far has its statements at the top level of the function body: repeat the rejecting ones inside a braced
+    # block, a then-block, an else-block, an else-if arm, the else after an else-if, and a looping block
+    wraps = {
+        "block": (["{"], ["}"]),
+        "then": (["if flag == true", "{"], ["}"]),
+        "else": (["if flag == true", "{", "}", "else", "{"], ["}"]),
+        "else_if": (["if flag == true", "{", "}", "else if flag == false", "{"], ["}"]),
+        "else_after_else_if": (["if flag == true", "{", "}", "else if flag == false", "{", "}", "else", "{"], ["}"]),
+        "nested_else_if": (["{", "if flag == true", "{", "}", "else if flag == false", "{", "if flag == true", "{"], ["}", "}", "}"]),
+    }
+    base_rows = [
+        ("write:value_param", "x: i32", [], "x = 1;"), ("write:array_view_elem", "x: []i32", [], "x[0] = 1;"),
+        ("write:struct_view_member", "s: S", [], "s.m = 1;"), ("write:constant", "", [], "K = 1;"),
+        ("copy:struct_view_init", "s: S", [], "var c = s;"), ("addr:member_of_struct_view", "s: S", [], "poke(&s.m);"),
+        ("write:pointer", "x: &i32", [], "x = 1;"),
+    ]
+    poke = "fn poke(x: &i32)\n{\n\tx = 1;\n}\n"
+    for name, params, pre_lines, stmt in base_rows:
+        want = "accept" if name == "write:pointer" else ({533} if name.startswith("copy") else {530})
+        for wname, (before, after) in wraps.items():
+            ps = (params + ", " if params else "") + "flag: bool"
+            t.append(("%s:in_%s" % (name, wname), PRE + poke + fn(ps, pre_lines + before + [stmt] + after), want))
     # pointer parameter needs explicit &
     for ty, decl, arg in [("&i32", "var a: i32 = 1;", "a"), ("&[]i32", "var a: [2]i32 = [1, 2];", "a"),
                           ("&S", None, None), ("&Wd", "var a = Wd { p: 1, q: 2 };", "a"),
